@@ -89,7 +89,7 @@ func cwUnitWitness(beh []map[string]any, res *vh.Result) {
 		case "TimerFire":
 			rec.waitNew(d + 2*time.Second)
 		}
-		got := rec.take()
+		got := batchIDs(rec.take())
 		log = append(log, fmt.Sprintf("%s -> flushed %v", act, got))
 		if removed && len(got) > 0 && act != "Del" {
 			flushedAfterRemoval = true
